@@ -423,3 +423,427 @@ Proof.
                           apply Decomp_code; apply c15_neutral_plain; apply sw_decs_join_plain; assumption end)|].
     c15_sites_norm.
 Qed.
+
+(* ================= decisions: IR items of the class give declarations with neutral code ================= *)
+From TS Require Proofs.C10_SWFile Proofs.C15_Kotlin.
+
+Lemma sw_ident_parts s : c15_ident_ok C15sw s = true ->
+  plain s = true /\ c15_sw_raw s = true /\ sw_rawq_ok s = true.
+Proof.
+  intros H0. assert (Hne : s <> []) by (intros ->; discriminate).
+  assert (H : forallb (c15_ident_char C15sw) s = true) by (destruct s; [discriminate|exact H0]).
+  assert (E : forall p : char -> bool, (forall x, c15_ident_char C15sw x = true -> p x = true) -> forallb p s = true).
+  { intros p Hp. rewrite forallb_forall in H |- *. intros x Hx. apply Hp, H, Hx. }
+  assert (E1 : forallb (c15_plain_char C15sw) s = true).
+  { apply E. intros x Hx. unfold c15_ident_char in Hx. now destruct (c15_plain_char C15sw x). }
+  assert (E2 : forallb c15_sw_raw_char s = true).
+  { apply E. intros x Hx. unfold c15_ident_char, c15_sw_raw_char, c15_lit_char, eol_lf_cr, ch_nl, ch_cr, ch_bs in *.
+    destruct (c15_plain_char C15sw x); [|discriminate]. lia. }
+  assert (E3 : forallb c15_lit_char s = true).
+  { apply E. intros x Hx. unfold c15_ident_char in Hx. destruct (c15_lit_char x); [reflexivity|]. now rewrite andb_false_r in Hx. }
+  repeat split; try assumption. unfold sw_rawq_ok, c15_sw_raw, c15_lit_str. destruct s; [congruence|]. now rewrite E2, E3.
+Qed.
+
+Lemma sw_pascal_go_plain tolow cap s : forallb sw_plain_c s = true -> forallb sw_plain_c (pascal_go tolow cap s) = true.
+Proof.
+  revert cap. induction s as [|c r IH]; intros cap H; [reflexivity|].
+  cbn [forallb] in H. apply andb_true_iff in H as [Hc Hr]. cbn [pascal_go].
+  destruct (c =? ch_us); [now apply IH|].
+  destruct cap; [|destruct tolow]; cbn [forallb]; rewrite (IH _ Hr), andb_true_r;
+    unfold sw_plain_c, aupper, alower, is_alower, is_aupper in *;
+    repeat match goal with |- context [if ?b then _ else _] => destruct b eqn:? end; lia.
+Qed.
+
+Lemma sw_camel_plain s r : plain s = true -> to_camel_case s = Ok r -> plain r = true.
+Proof.
+  rewrite !sw_plain_chars. intros H E. unfold to_camel_case in E.
+  pose proof (sw_pascal_go_plain (all_upper s) true s H) as Hp. fold (to_pascal_case s) in Hp.
+  destruct (to_pascal_case s) as [|c t]; injection E as <-; [reflexivity|].
+  cbn [forallb] in *. apply andb_true_iff in Hp as [Hc Ht]. rewrite Ht, andb_true_r.
+  unfold sw_plain_c, alower, is_aupper in *. destruct ((65 <=? c) && (c <=? 90)) eqn:E; lia.
+Qed.
+
+Lemma sw_plain_replace_dash s : plain s = true -> plain (sw_remove_dash_from_identifier s) = true.
+Proof.
+  unfold sw_remove_dash_from_identifier, replace_char. rewrite !sw_plain_chars, c15_forallb_map.
+  intros H. rewrite forallb_forall in H |- *. intros x Hx. specialize (H x Hx). unfold ch_dash, ch_us.
+  destruct (x =? 45); [reflexivity|exact H].
+Qed.
+
+Lemma sw_decs_get_of (p : str -> bool) k dm ds :
+  sw_decs_get k dm = Some ds -> forallb p (c15_decs_of k dm) = true -> forallb p ds = true.
+Proof.
+  unfold c15_decs_of. induction dm as [|[a v] r IH]; [discriminate|]. cbn [sw_decs_get flat_map fst snd].
+  rewrite forallb_app. destruct (deckind_eqb a k); intros E H; apply andb_true_iff in H as [H1 H2].
+  - injection E as <-. exact H1.
+  - now apply IH.
+Qed.
+
+Lemma sw_assoc_last_all (p : list str -> bool) g m cs :
+  forallb (fun kv : str * list str => p (snd kv)) m = true -> sw_assoc_last g m = Some cs -> p cs = true.
+Proof.
+  revert cs. induction m as [|[a v] t IH]; intros cs; [discriminate|]. cbn [sw_assoc_last forallb snd]. intros Ha E.
+  apply andb_true_iff in Ha as [H1 H2].
+  destruct (sw_assoc_last g t) as [w|] eqn:Et; [injection E as <-; exact (IH w H2 eq_refl)|].
+  destruct (str_eqb a g); [injection E as <-; exact H1|discriminate].
+Qed.
+
+Section SWStrict.
+Variable uc : unicode.
+Variable cfg : sw_config.
+Hypothesis Hprefix : c15_sw_raw (sw_prefix cfg) = true.
+Hypothesis Hmap : c15_mappings_plain C15sw (sw_type_mappings cfg) = true.
+Hypothesis Hdecs : forallb plain (sw_default_decorators cfg) = true.
+Hypothesis Hgcs : forallb plain (sw_default_generic_constraints cfg) = true.
+
+Lemma sw_prefixed_plain s : plain s = true -> plain (sw_prefix cfg ++ s) = true.
+Proof. intros H. now rewrite c15_plain_app, (sw_raw_plain _ Hprefix), H. Qed.
+
+(* ---- decorators and generic constraints: pieces of plain strings ---- *)
+Lemma sw_split_constraints_plain c : plain c = true -> forallb plain (sw_split_constraints uc c) = true.
+Proof.
+  intros H. unfold sw_split_constraints. rewrite c15_forallb_map. apply c15_Forall_forallb.
+  pose proof (C10_SWFile.split_on_all (c15_plain_char C15sw) 38 c [] H eq_refl) as Hs. revert Hs.
+  apply Forall_impl. intros w Hw. apply C10_SWFile.trim_all, Hw.
+Qed.
+
+Lemma sw_get_constraints_plain : forallb plain (sw_get_constraints uc cfg) = true.
+Proof.
+  unfold sw_get_constraints, sw_from_config. apply C10_SWFile.sset_of_all. cbn [forallb].
+  apply andb_true_iff. split; [reflexivity|].
+  revert Hgcs. generalize (sw_default_generic_constraints cfg). intros l. induction l as [|c r IH]; intros H; [reflexivity|].
+  cbn [forallb flat_map] in *. apply andb_true_iff in H as [Hc Hr].
+  now rewrite forallb_app, (sw_split_constraints_plain c Hc), (IH Hr).
+Qed.
+
+Lemma sw_generic_constraints_plain dm gs : c15_sw_decs_plain dm = true -> forallb plain gs = true ->
+  sw_generics_ok (sw_generic_constraints uc cfg dm gs) = true.
+Proof.
+  intros Hdm Hg. unfold sw_generic_constraints. cbv zeta.
+  set (annotated := match sw_decs_get DKSwiftGenericConstraints dm with None => [] | Some gcs => _ end).
+  assert (Ha : forallb (fun kv : str * list str => forallb plain (snd kv)) annotated = true).
+  { subst annotated. destruct (sw_decs_get DKSwiftGenericConstraints dm) as [gcs|] eqn:Eg; [|reflexivity].
+    assert (Hp : forallb plain gcs = true).
+    { eapply sw_decs_get_of; [exact Eg|]. unfold c15_sw_decs_plain in Hdm. now apply andb_true_iff in Hdm as [_ Hdm]. }
+    clear Eg. induction gcs as [|gc r IH]; [reflexivity|]. cbn [forallb flat_map] in *. apply andb_true_iff in Hp as [Hgc Hr].
+    rewrite forallb_app, (IH Hr), andb_true_r.
+    pose proof (C10_SWFile.split_on_all (c15_plain_char C15sw) 58 gc [] Hgc eq_refl) as Hs.
+    destruct (split_on 58 gc []) as [|gn [|cs rest]]; try reflexivity. cbn [forallb snd]. rewrite andb_true_r.
+    apply C10_SWFile.sset_of_all. rewrite forallb_app, sw_get_constraints_plain, andb_true_r.
+    inversion Hs as [|? ? _ Hs2]; subst. inversion Hs2 as [|? ? Hcs _]; subst.
+    exact (sw_split_constraints_plain cs Hcs). }
+  clearbody annotated. unfold sw_generics_ok. rewrite c15_forallb_map. cbn [fst snd].
+  apply forallb_forall. intros g Hgin. rewrite forallb_forall in Hg. rewrite (Hg g Hgin). cbn [andb].
+  destruct (sw_assoc_last g annotated) as [cs|] eqn:E; [|exact sw_get_constraints_plain].
+  exact (sw_assoc_last_all (forallb plain) g annotated cs Ha E).
+Qed.
+
+Lemma sw_default_decorators_plain : forallb plain (sw_get_default_decorators cfg) = true.
+Proof. unfold sw_get_default_decorators. cbn [forallb]. apply andb_true_iff. split; [reflexivity|exact Hdecs]. Qed.
+
+Lemma sw_swift_decs_plain dm ds : c15_sw_decs_plain dm = true -> sw_decs_get DKSwift dm = Some ds -> forallb plain ds = true.
+Proof.
+  intros Hdm E. eapply sw_decs_get_of; [exact E|]. unfold c15_sw_decs_plain in Hdm. now apply andb_true_iff in Hdm as [Hdm _].
+Qed.
+
+(* ---- printed types ---- *)
+Lemma sw_simple_texp_plain base gs args : plain base = true -> forallb (fun a => plain (sw_show a)) args = true ->
+  plain (sw_show (sw_simple_texp cfg base gs args)) = true.
+Proof.
+  intros Hb Ha. unfold sw_simple_texp. destruct (tmap_get (sw_type_mappings cfg) base) eqn:E.
+  - cbn [sw_show]. eapply c15_tmap_get_plain; eauto.
+  - set (n := if mem_str base gs then base else sw_prefix cfg ++ base).
+    assert (Hn : plain n = true). { subst n. destruct (mem_str base gs); [exact Hb|now apply sw_prefixed_plain]. }
+    destruct args as [|a r]; [exact Hn|].
+    change (sw_show (XName n (a :: r))) with (n ++ lit "<" ++ join (lit ", ") (map sw_show (a :: r)) ++ lit ">").
+    rewrite !c15_plain_app, Hn. cbn [andb]. rewrite c15_plain_join; [reflexivity|reflexivity|].
+    rewrite c15_forallb_map. exact Ha.
+Qed.
+
+Lemma sw_texp_plain gs t : c15_rtype_plain C15sw t = true ->
+  forall st x st', sw_texp cfg gs t st = Ok (x, st') -> plain (sw_show x) = true.
+Proof.
+  induction t as [id|id ps IH|t IH|t n IH|t IH|k v IHk IHv|t IH|p] using rtype_ind'; intros Hp st x st' H;
+    cbn [sw_texp c15_rtype_plain] in *.
+  - unfold ret in H. injection H as <- _. apply sw_simple_texp_plain; [exact Hp|reflexivity].
+  - apply andb_true_iff in Hp as [Hid Hps]. destruct (tmap_get (sw_type_mappings cfg) id) eqn:E.
+    + unfold ret in H. injection H as <- _. cbn [sw_show]. eapply c15_tmap_get_plain; eauto.
+    + rewrite c15_go_is_mmapM in H. apply mbind_ok in H as (params & s1 & Hparams & H). unfold ret in H. injection H as <- _.
+      apply sw_simple_texp_plain; [exact Hid|]. apply c15_Forall_forallb.
+      eapply c15_mmapM_Forall; [|exact Hparams]. rewrite Forall_forall in IH |- *. intros t Ht s y s' Hy.
+      eapply IH; [exact Ht| |exact Hy]. rewrite forallb_forall in Hps. now apply Hps.
+  - apply mbind_ok in H as (e & s1 & He & H). unfold ret in H. injection H as <- _.
+    change (sw_show (XSeq e)) with (lit "[" ++ sw_show e ++ lit "]"). now rewrite !c15_plain_app, (IH Hp _ _ _ He).
+  - apply mbind_ok in H as (e & s1 & He & H). unfold ret in H. injection H as <- _.
+    change (sw_show (XSeq e)) with (lit "[" ++ sw_show e ++ lit "]"). now rewrite !c15_plain_app, (IH Hp _ _ _ He).
+  - apply mbind_ok in H as (e & s1 & He & H). unfold ret in H. injection H as <- _.
+    change (sw_show (XSeq e)) with (lit "[" ++ sw_show e ++ lit "]"). now rewrite !c15_plain_app, (IH Hp _ _ _ He).
+  - apply andb_true_iff in Hp as [Hk Hv].
+    apply mbind_ok in H as (ke & s1 & Hke & H). apply mbind_ok in H as (ve & s2 & Hve & H). unfold ret in H. injection H as <- _.
+    change (sw_show (XMap ke ve)) with (lit "[" ++ sw_show ke ++ lit ": " ++ sw_show ve ++ lit "]").
+    now rewrite !c15_plain_app, (IHk Hk _ _ _ Hke), (IHv Hv _ _ _ Hve).
+  - apply mbind_ok in H as (e & s1 & He & H). unfold ret in H. injection H as <- _.
+    change (sw_show (XOpt e)) with (sw_show e ++ lit "?"). now rewrite !c15_plain_app, (IH Hp _ _ _ He).
+  - destruct p; cbv [mbind mput ret fail] in H; try discriminate; injection H as <- _; reflexivity.
+Qed.
+
+Lemma sw_field_texp_plain gs f st x st' :
+  match type_override f Swift with Some o => plain o | None => c15_rtype_plain C15sw (fty f) end = true ->
+  sw_field_texp cfg gs f st = Ok (x, st') -> plain (sw_show x) = true.
+Proof.
+  unfold sw_field_texp. destruct (type_override f Swift); intros Ht H.
+  - unfold ret in H. injection H as <- _. exact Ht.
+  - eapply sw_texp_plain; eauto.
+Qed.
+
+(* ---- structs ---- *)
+Lemma sw_member_ok_ir f ty ity : c15_ident_ok C15sw (renamed (fid f)) = true ->
+  plain (sw_show ty) = true -> plain (sw_show ity) = true -> sw_member_ok (sw_member_of uc f ty ity) = true.
+Proof.
+  intros Hid Ht Hi. destruct (sw_ident_parts _ Hid) as (Hp & Hr & Hq).
+  unfold sw_member_ok, sw_member_of. cbn [swm_name swm_coding_key swm_type swm_init_type].
+  rewrite Ht, Hi, !andb_true_r. apply andb_true_iff. split; [now apply sw_plain_replace_dash|].
+  destruct (contains_char ch_dash (renamed (fid f))); [exact Hq|reflexivity].
+Qed.
+
+Lemma sw_fields_texp_plain gs fs st tys st' : forallb (c15_field_strict C15sw Swift) fs = true ->
+  mmapM (sw_field_texp cfg gs) fs st = Ok (tys, st') -> Forall (fun x => plain (sw_show x) = true) tys.
+Proof.
+  intros Hf Ht. eapply c15_mmapM_Forall; [|exact Ht]. apply Forall_forall. intros f Hfin s0 y s0' Hy.
+  rewrite forallb_forall in Hf. specialize (Hf f Hfin). unfold c15_field_strict in Hf. apply andb_true_iff in Hf as [_ Hty].
+  eapply sw_field_texp_plain; eauto.
+Qed.
+
+Lemma sw_struct_ok_ir rs st s st' :
+  plain (renamed (sid rs)) = true -> forallb plain (sgenerics rs) = true -> c15_sw_decs_plain (sdecs rs) = true ->
+  forallb (c15_field_strict C15sw Swift) (sfields rs) = true ->
+  sw_struct_of uc cfg rs st = Ok (s, st') -> sw_struct_ok s = true.
+Proof.
+  intros Hn Hg Hd Hf H. unfold sw_struct_of in H.
+  apply mbind_ok in H as (tys & s1 & Ht & H). apply mbind_ok in H as (its & s2 & Hi & H). unfold ret in H. injection H as <- _.
+  pose proof (sw_fields_texp_plain _ _ _ _ _ Hf Ht) as HT. pose proof (sw_fields_texp_plain _ _ _ _ _ Hf Hi) as HI.
+  unfold sw_struct_ok. cbn [sws_name sws_generics sws_decs sws_members].
+  apply andb_true_iff. split; [apply andb_true_iff; split; [apply andb_true_iff; split|]|].
+  - now apply sw_prefixed_plain.
+  - now apply sw_generic_constraints_plain.
+  - destruct (sw_decs_get DKSwift (sdecs rs)) as [ds|] eqn:E; [|exact sw_default_decorators_plain].
+    change (forallb plain (sw_get_default_decorators cfg ++ filter (fun d : str => negb (str_eqb d sw_CODABLE)) ds) = true).
+    rewrite forallb_app, sw_default_decorators_plain. apply C10_SWFile.filter_all. eapply sw_swift_decs_plain; eauto.
+  - rewrite c15_forallb_map. apply forallb_forall. intros [f [ty ity]] Hin. cbn [fst snd].
+    pose proof (in_combine_l _ _ _ _ Hin) as Hf1. pose proof (in_combine_r _ _ _ _ Hin) as Hr.
+    pose proof (in_combine_l _ _ _ _ Hr) as Hty1. pose proof (in_combine_r _ _ _ _ Hr) as Hty2.
+    rewrite Forall_forall in HT, HI. rewrite forallb_forall in Hf. specialize (Hf f Hf1).
+    unfold c15_field_strict in Hf. apply andb_true_iff in Hf as [Hid _].
+    apply sw_member_ok_ir; auto.
+Qed.
+
+Lemma sw_inner_ok_ir sh vs st ss st' :
+  c15_ident_ok C15sw (renamed (eid sh)) = true -> forallb plain (egenerics sh) = true ->
+  c15_sw_decs_plain (edecs sh) = true -> forallb (c15_variant_strict C15sw Swift) vs = true ->
+  sw_inner_structs_of uc cfg sh vs st = Ok (ss, st') -> forallb sw_struct_ok ss = true.
+Proof.
+  intros Hid Hg Hd. destruct (sw_ident_parts _ Hid) as (Hrp & _ & _).
+  revert st ss st'. induction vs as [|v r IH]; intros st ss st' Hvs H.
+  - cbn in H. unfold ret in H. injection H as <- _. reflexivity.
+  - cbn [forallb] in Hvs. apply andb_true_iff in Hvs as [Hv Hr].
+    destruct v as [vsh|t vsh|fs vsh]; cbn [sw_inner_structs_of] in H; try (eapply IH; eassumption).
+    apply mbind_ok in H as (s & s1 & Hs & H). apply mbind_ok in H as (ss' & s2 & Hss & H). unfold ret in H. injection H as <- _.
+    cbn [forallb]. rewrite (IH _ _ _ Hr Hss), andb_true_r.
+    unfold c15_variant_strict in Hv. cbn [variant_shared] in Hv. c15_split_andb.
+    destruct (sw_ident_parts (original (vid vsh)) ltac:(eassumption)) as (Hop & _ & _).
+    eapply sw_struct_ok_ir; [| | | |exact Hs]; cbn [anon_struct sid renamed sgenerics sfields sdecs].
+    + unfold sw_make_anonymous_struct_name. now rewrite !c15_plain_app, Hrp, Hop.
+    + now apply C15_Kotlin.c15_anon_generics_plain.
+    + exact Hd.
+    + assumption.
+Qed.
+
+(* ---- enums ---- *)
+Lemma sw_lift_camel_plain s st n st' : plain s = true -> sw_lift (to_camel_case s) st = Ok (n, st') -> plain n = true.
+Proof.
+  intros Hp H. unfold sw_lift in H. destruct (to_camel_case s) as [r| |] eqn:E; try discriminate.
+  injection H as <- _. eapply sw_camel_plain; eauto.
+Qed.
+
+Lemma sw_unit_variant_ok_ir v st x st' : c15_variant_strict C15sw Swift v = true ->
+  sw_unit_variant_of uc v st = Ok (x, st') -> sw_variant_ok x = true.
+Proof.
+  unfold sw_unit_variant_of. cbv zeta. intros Hs H. apply mbind_ok in H as (n & s1 & Hn & H). unfold ret in H. injection H as <- _.
+  unfold c15_variant_strict in Hs. apply andb_true_iff in Hs as [Hs _]. apply andb_true_iff in Hs as [Hr Ho].
+  destruct (sw_ident_parts _ Hr) as (_ & _ & Hq). destruct (sw_ident_parts _ Ho) as (Hop & _ & _).
+  pose proof (sw_lift_camel_plain _ _ _ _ Hop Hn) as Hnp.
+  unfold sw_variant_ok. cbn [swv_name swv_raw swv_payload sw_payload_ok]. rewrite Hnp, andb_true_r. cbn [andb].
+  destruct (str_eqb (renamed (vid (variant_shared v))) n); [reflexivity|exact Hq].
+Qed.
+
+Lemma sw_variant_ok_ir sh v st x st' :
+  c15_ident_ok C15sw (renamed (eid sh)) = true -> forallb plain (egenerics sh) = true ->
+  c15_variant_strict C15sw Swift v = true ->
+  sw_variant_of uc cfg sh v st = Ok (x, st') -> sw_variant_ok x = true.
+Proof.
+  unfold sw_variant_of. cbv zeta. intros Hid Hg Hs H. destruct (sw_ident_parts _ Hid) as (Hrp & _ & _).
+  apply mbind_ok in H as (camel & s1 & Hn & H). apply mbind_ok in H as (pl & s2 & Hpl & H). unfold ret in H. injection H as <- _.
+  unfold c15_variant_strict in Hs. apply andb_true_iff in Hs as [Hs Hpay]. apply andb_true_iff in Hs as [Hr Ho].
+  destruct (sw_ident_parts _ Hr) as (_ & _ & Hq). destruct (sw_ident_parts _ Ho) as (Hop & _ & _).
+  pose proof (sw_lift_camel_plain _ _ _ _ Hop Hn) as Hcp.
+  assert (Hnp : plain (match camel with c :: _ => if is_adigit c then lit "_" ++ camel else camel | [] => camel end) = true).
+  { destruct camel as [|c r]; [reflexivity|]. destruct (is_adigit c); [|exact Hcp]. now rewrite c15_plain_app, Hcp. }
+  unfold sw_variant_ok. cbn [swv_name swv_raw swv_payload].
+  apply andb_true_iff. split; [apply andb_true_iff; split; [exact Hnp|]|].
+  { match goal with |- context [str_eqb ?a ?b] => destruct (str_eqb a b) end; [reflexivity|exact Hq]. }
+  destruct v as [vsh|t vsh|fs vsh]; cbn [variant_shared] in *.
+  - unfold ret in Hpl. injection Hpl as <- _. reflexivity.
+  - apply mbind_ok in Hpl as (ty & s3 & Hty & Hpl). unfold ret in Hpl. injection Hpl as <- _. cbn [sw_payload_ok].
+    eapply sw_texp_plain; eauto.
+  - unfold ret in Hpl. injection Hpl as <- _. cbn [sw_payload_ok]. apply andb_true_iff. split.
+    + apply sw_prefixed_plain. unfold sw_make_anonymous_struct_name. now rewrite !c15_plain_app, Hrp, Hop.
+    + now apply C15_Kotlin.c15_anon_generics_plain.
+Qed.
+
+Lemma sw_enum_ok_ir e st d st' : c15_sw_item_ok (ItEnum e) = true ->
+  sw_enum_of uc cfg e st = Ok (d, st') -> sw_enum_ok d = true.
+Proof.
+  unfold c15_sw_item_ok. cbn [c15_item_strict]. intros Hs H. c15_split_andb.
+  match goal with Hv : forallb (c15_variant_strict _ _) _ = true |- _ => rename Hv into Hvs end.
+  match goal with Hv : c15_ident_ok _ (renamed _) = true |- _ => rename Hv into Hid end.
+  match goal with Hv : c15_sw_decs_plain _ = true |- _ => rename Hv into Hdm end.
+  match goal with Hv : forallb (c15_plain _) (egenerics _) = true |- _ => rename Hv into Hg end.
+  destruct (sw_ident_parts _ Hid) as (Hrp & Hrr & _).
+  unfold sw_enum_of in H. cbv zeta in H.
+  apply mbind_ok in H as (inner & s1 & Hin & H). apply mbind_ok in H as (vs & s2 & Hv & H). unfold ret in H. injection H as <- _.
+  unfold sw_enum_ok. cbn [swe_inner swe_name swe_generics swe_decs swe_tagged swe_variants].
+  assert (Hvok : forallb sw_variant_ok vs = true).
+  { apply c15_Forall_forallb. destruct e as [sh|tag content sh]; cbn [enum_shared] in *.
+    - eapply c15_mmapM_Forall; [|exact Hv]. apply Forall_forall. intros v Hvin s0 y s0' Hy.
+      rewrite forallb_forall in Hvs. eapply sw_unit_variant_ok_ir; [apply Hvs, Hvin|exact Hy].
+    - eapply c15_mmapM_Forall; [|exact Hv]. apply Forall_forall. intros v Hvin s0 y s0' Hy.
+      rewrite forallb_forall in Hvs. eapply sw_variant_ok_ir; [exact Hid|exact Hg|apply Hvs, Hvin|exact Hy]. }
+  rewrite Hvok, (sw_inner_ok_ir _ _ _ _ _ Hid Hg Hdm Hvs Hin), (sw_generic_constraints_plain _ _ Hdm Hg).
+  rewrite sw_raw_app, Hprefix, Hrr. cbn [andb]. rewrite andb_true_r. apply andb_true_iff. split.
+  - unfold sw_determine_decorators.
+    assert (Hap : forall l, forallb plain l = true ->
+              forallb plain (l ++ match sw_decs_get DKSwift (edecs (enum_shared e)) with
+                                  | Some ds => filter (fun d => negb (mem_str d l)) ds | None => [] end) = true).
+    { intros l Hl. rewrite forallb_app, Hl. destruct (sw_decs_get DKSwift (edecs (enum_shared e))) as [ds|] eqn:E; [|reflexivity].
+      apply C10_SWFile.filter_all. eapply sw_swift_decs_plain; eauto. }
+    destruct e as [sh|tag content sh]; apply Hap; [|exact sw_default_decorators_plain].
+    cbn [forallb]. now rewrite sw_default_decorators_plain.
+  - destruct e as [sh|tag content sh]; [reflexivity|]. apply andb_true_iff. split; assumption.
+Qed.
+
+Theorem sw_decl_ok_ir it st d st' : c15_sw_item_ok it = true -> sw_decl_of uc cfg it st = Ok (d, st') -> sw_decl_ok d = true.
+Proof.
+  destruct it as [s|e|a|c]; intros Hs H; cbn [sw_decl_of] in H.
+  - apply mbind_ok in H as (d0 & s1 & Hd & H). unfold ret in H. injection H as <- _. cbn [sw_decl_ok].
+    unfold c15_sw_item_ok in Hs. cbn [c15_item_strict] in Hs. c15_split_andb.
+    destruct (sw_ident_parts (renamed (sid s)) ltac:(eassumption)) as (Hp & _ & _).
+    eapply sw_struct_ok_ir; eauto.
+  - apply mbind_ok in H as (d0 & s1 & Hd & H). unfold ret in H. injection H as <- _. cbn [sw_decl_ok].
+    eapply sw_enum_ok_ir; eauto.
+  - apply mbind_ok in H as (t & s1 & Ht & H). unfold ret in H. injection H as <- _. cbn [sw_decl_ok].
+    unfold c15_sw_item_ok in Hs. cbn [c15_item_strict] in Hs. c15_split_andb.
+    destruct (sw_ident_parts (renamed (aid a)) ltac:(eassumption)) as (Hp & _ & _).
+    rewrite (sw_prefixed_plain _ Hp). cbn [andb]. apply andb_true_iff. split; [assumption|]. eapply sw_texp_plain; eauto.
+  - discriminate.
+Qed.
+
+(* one item, no neutrality hypothesis *)
+Theorem swn_item_decomp it st text st' : c15_sw_item_ok it = true ->
+  sw_write_item uc cfg it st = Ok (text, st') -> DS text (c15_sites false (c15_sw_item_docs uc it)).
+Proof.
+  unfold sw_write_item. intros Hs H. apply mbind_ok in H as (d & s1 & Hd & H). unfold ret in H. injection H as <- _.
+  rewrite <- (sw_decl_docs_ir _ _ _ _ _ _ Hd). apply swn_decl_decomp. eapply sw_decl_ok_ir; eauto.
+Qed.
+
+Theorem C15_sw_item it st text st' : c15_sw_item_ok it = true ->
+  sw_write_item uc cfg it st = Ok (text, st') ->
+  exists parts,
+    text = text_of (c15_file_pieces C15sw parts) /\
+    docs_of (c15_file_pieces C15sw parts) = c15_sw_item_docs uc it /\
+    c15_contained C15sw LCode (mark (c15_file_pieces C15sw parts)) = forallb safe_sw (c15_sw_item_docs uc it).
+Proof.
+  intros Hs H. destruct (Decomp_contained _ _ _ (swn_item_decomp _ _ _ _ Hs H)) as (ps & Ht & Hd & Hc).
+  exists ps. rewrite c15_sites_text_line in Hd by discriminate. rewrite c15_sites_ok_false in Hc by discriminate. auto.
+Qed.
+End SWStrict.
+
+(* ---- parsed items: doc strings free of line breaks (Proofs/C15_Front.v) stay so when their trailing white space is
+   removed, the generated helper comments are built from strict identifiers: the whole item is contained ---- *)
+From TS Require Proofs.C15_Front.
+
+Lemma c15_trim_end_free uc d : C15_Front.c15_line_free d -> C15_Front.c15_line_free (c15_trim_end uc d).
+Proof.
+  unfold C15_Front.c15_line_free, safe_line, c15_trim_end. intros H.
+  rewrite C10_SWFile.forallb_rev. apply C10_SWFile.trim_start_all. now rewrite C10_SWFile.forallb_rev.
+Qed.
+
+Theorem C15_sw_item_line_free (uc : unicode) (cfg : sw_config) :
+  c15_sw_raw (sw_prefix cfg) = true -> c15_mappings_plain C15sw (sw_type_mappings cfg) = true ->
+  forallb plain (sw_default_decorators cfg) = true -> forallb plain (sw_default_generic_constraints cfg) = true ->
+  forall it st text st', c15_sw_item_ok it = true -> Forall C15_Front.c15_line_free (c15_item_docs it) ->
+  sw_write_item uc cfg it st = Ok (text, st') ->
+  exists parts,
+    text = text_of (c15_file_pieces C15sw parts) /\
+    docs_of (c15_file_pieces C15sw parts) = c15_sw_item_docs uc it /\
+    c15_contained C15sw LCode (mark (c15_file_pieces C15sw parts)) = true.
+Proof.
+  intros Hp Hm Hdd Hgc it st text st' Hs Hd H.
+  destruct (C15_sw_item uc cfg Hp Hm Hdd Hgc it st text st' Hs H) as (ps & Ht & Hdocs & Hc).
+  exists ps. repeat split; auto. rewrite Hc. unfold c15_sw_item_docs.
+  assert (Hstrict : c15_item_strict C15sw Swift it = true).
+  { unfold c15_sw_item_ok in Hs. now apply andb_true_iff in Hs as [Hs _]. }
+  assert (Hall : forallb (c15_safe C15sw false) (c15_item_docs_helpers_first it) = true).
+  { rewrite c15_helpers_first_safe.
+    rewrite (C15_Front.c15_line_free_forallb _ (C15_Front.c15_generated_free _ _ _ Hstrict) C15sw false).
+    exact (C15_Front.c15_line_free_forallb _ Hd C15sw false). }
+  apply forallb_forall. intros d Hin. apply in_map_iff in Hin as (d0 & <- & Hd0).
+  rewrite forallb_forall in Hall. specialize (Hall d0 Hd0).
+  exact (c15_trim_end_free uc d0 Hall).
+Qed.
+
+(* non-vacuity: a generic tagged enum with the three variant kinds (a unit variant, a newtype variant whose wire name has a
+   dash, a struct variant with a dashed key: helper struct with CodingKeys raw values), with Swift decorators and generic
+   constraints, under a configuration with a prefix, a type mapping, default decorators and default generic constraints,
+   satisfies the hypotheses; the text the model prints for it - CodingKeys, init(from:) with its string literal,
+   encode(to:); docs full of comment openers, quotes and backslashes - is contained *)
+Definition c15_swnv_id (o r : string) : id := {| original := lit o; renamed := lit r; via_serde_rename := false |}.
+Definition c15_swnv_field (o r : string) (t : rtype) (docs : list str) : rfield :=
+  {| fid := c15_swnv_id o r; fty := t; fcomments := docs; has_default := false; fdecs := [] |}.
+Definition c15_swnv_vsh (o r : string) (docs : list str) : vshared := {| vid := c15_swnv_id o r; vcomments := docs |}.
+Definition c15_swnv_decs : decmap :=
+  [(DKSwift, [lit "Equatable"; lit "Hashable"]); (DKSwiftGenericConstraints, [lit "T: Equatable & Hashable"])].
+Definition c15_swnv_enum : ritem :=
+  ItEnum (EAlgebraic (lit "type") (lit "content")
+            {| eid := c15_swnv_id "E" "E"; egenerics := [lit "T"]; ecomments := [c15_doc_nasty_line; lit "trailing  "];
+               evariants := [VUnit (c15_swnv_vsh "A" "a" [lit "unit"]);
+                             VTuple (ROption (RVec (RSimple (lit "T")))) (c15_swnv_vsh "B" "b-b" [c15_doc_nasty_line]);
+                             VAnon [c15_swnv_field "x_y" "x-y" (RHashMap (RPrim PString) (RSimple (lit "Foo"))) [lit "field doc */ "" \"]]
+                                   (c15_swnv_vsh "C" "c" [lit "struct variant"])];
+               edecs := c15_swnv_decs; erecursive := true; eredacted := false |}).
+Definition c15_swnv_unit_enum : ritem :=
+  ItEnum (EUnit {| eid := c15_swnv_id "Color" "Color"; egenerics := []; ecomments := [lit "colours"];
+                   evariants := [VUnit (c15_swnv_vsh "Red" "red-ish" [c15_doc_nasty_line]); VUnit (c15_swnv_vsh "default" "default" [])];
+                   edecs := []; erecursive := false; eredacted := false |}).
+Definition c15_swnv_struct : ritem :=
+  ItStruct {| sid := c15_swnv_id "Foo" "Foo"; sgenerics := [lit "T"];
+              sfields := [c15_swnv_field "a" "a-b" (RGeneric (lit "Bar") [RSimple (lit "T")]) [c15_doc_nasty_line]];
+              scomments := [lit "first"; lit "second"]; sdecs := c15_swnv_decs; sredacted := false |}.
+Definition c15_swnv_alias : ritem :=
+  ItAlias {| aid := c15_swnv_id "Ids" "Ids"; agenerics := []; atype := RVec (RPrim PU32); acomments := [c15_doc_nasty_line];
+             adecs := []; aredacted := false |}.
+Definition c15_swnv_cfg : sw_config :=
+  {| sw_prefix := lit "My"; sw_type_mappings := [(lit "Url", lit "URL")]; sw_default_decorators := [lit "Sendable"];
+     sw_default_generic_constraints := [lit "Sendable & Equatable"]; sw_codablevoid_constraints := [];
+     sw_no_version_header := true; sw_version := [] |}.
+Definition c15_swnv_written (it : ritem) : bool :=
+  match sw_write_item uc_exec c15_swnv_cfg it false with
+  | Ok (text, _) => good_C15 C15sw (c15_sw_item_docs uc_exec it) text
+  | _ => false
+  end.
+Example C15_sw_item_nonvacuous :
+  forallb c15_sw_item_ok [c15_swnv_enum; c15_swnv_unit_enum; c15_swnv_struct; c15_swnv_alias] = true /\
+  c15_sw_raw (sw_prefix c15_swnv_cfg) = true /\ c15_mappings_plain C15sw (sw_type_mappings c15_swnv_cfg) = true /\
+  forallb plain (sw_default_decorators c15_swnv_cfg) = true /\
+  forallb plain (sw_default_generic_constraints c15_swnv_cfg) = true /\
+  forallb c15_swnv_written [c15_swnv_enum; c15_swnv_unit_enum; c15_swnv_struct; c15_swnv_alias] = true.
+Proof. repeat split; vm_compute; reflexivity. Qed.
